@@ -102,6 +102,7 @@ class Contract:
         self.defaults = d.get("defaults", {})     # parameter defaults (must equal the source's; checked structurally)
         self.inv_exclude_pre = d.get("inv_exclude_pre", [])   # invariant clauses (by name prefix) not needed at entry
         self.assume_entry = d.get("assume_entry", {})
+        self.returns_fresh = d.get("returns_fresh", False)   # the result is an object that did not exist before the call
         self.local_sorts = d.get("local_sorts", {})   # sorts of locals that start as empty containers
         self.probe = d.get("probe", False)         # known-finding probe: a variant verified WITHOUT a usage assumption
         self.probe_only = d.get("probe_only", [])  # ... of which only these obligations (substrings) are reported
@@ -545,8 +546,9 @@ class Task:
                 env["result"] = VNONE
             for tgt, t in c.ghost_exit.items():
                 val = self.spec(st, t, env, self.old, self.receiver)
-                if tgt.startswith("self."):
-                    self.write_field(st, env["self"], tgt[5:], val)
+                if "." in tgt:
+                    on, fn_ = tgt.split(".", 1)
+                    self.write_field(st, env[on], fn_, val)
                 else:
                     st.globals[tgt] = coerce(val, self.ctx.globals[tgt])
             if c.check_frame:
@@ -740,6 +742,10 @@ class Task:
             for s2, (cont, idx), e in self.ev_many([t.value, t.slice], st):
                 if e is not None:
                     res.append(Outcome(Outcome.RAISE, s2, exc=e))
+                    continue
+                if isinstance(cont, (VDotted, VOpaque)):
+                    self.dropped.add("item stores into external/opaque containers (e.g. sys.modules[...] = ...)")
+                    res.append(s2)
                     continue
                 if isinstance(cont, VEmptyDict):
                     if not (isinstance(idx, V) and isinstance(v, V)):
@@ -1026,7 +1032,7 @@ class Task:
         if called is not None:
             for cname in called:
                 self.havoc_contract_frame(st, self.ctx.contracts[cname])
-            if any(self.ctx.contracts[cn].ctor for cn in called):
+            if any(self.ctx.contracts[cn].ctor or self.ctx.contracts[cn].returns_fresh for cn in called):
                 na = z3.Const(fresh_name("ALLOC"), z3.ArraySort(Ref, z3.BoolSort()))
                 xq = z3.Const(fresh_name("aq"), Ref)
                 st.assume(z3.ForAll([xq], z3.Implies(z3.Select(st.alloc, xq), z3.Select(na, xq))))
@@ -1463,7 +1469,8 @@ class Task:
                 self.dropped.add("%-formatting results (treated as an opaque string)")
                 res.append((s2, STR.fresh("fmt"), None))
                 continue
-            res.append((s2, binop(node.op, a, b, lambda n, f: self.oblige(s2, f"{self.label}: safety: {n} (line +{node.lineno - self.fn.lineno})", f, "safety", node.lineno)), None))
+            res.append((s2, binop(node.op, a, b, lambda n, f: (s2.assume(f) if n == "__assume__" else
+                                                           self.oblige(s2, f"{self.label}: safety: {n} (line +{node.lineno - self.fn.lineno})", f, "safety", node.lineno))), None))
         return res
 
     def ex_BoolOp(self, node, st):
@@ -1979,8 +1986,12 @@ class Task:
         where = f"{self.label}: call {c.name} (line +{ln})"
         for k, t in list(c.requires.items()) + list(c.requires_for.get(self_cls, {}).items()):
             self.oblige(st, f"{where} requires {k}", self.spec_bool(st, t, env, None, self_cls), "requires", getattr(node, "lineno", None))
+        env_site = dict(env)
+        for ln_, lv_ in st.locals.items():
+            if isinstance(lv_, V):
+                env_site.setdefault("L_" + ln_, lv_)      # the caller's locals, for site assertions only
         for k, t in list(c.site_asserts.items()) + list(c.site_asserts_for.get(self.receiver, {}).items()) + list(c.site_asserts_in.get(self.contract.name, {}).items()):
-            self.oblige(st, f"{k} @ {where}", self.spec_bool(st, t, env, self.old, self_cls), "site", getattr(node, "lineno", None))
+            self.oblige(st, f"{k} @ {where}", self.spec_bool(st, t, env_site, self.old, self_cls), "site", getattr(node, "lineno", None))
         for ox in c.assert_inv_of:
             o = self.spec(st, ox, env, None, self_cls)
             for k, t in self.ctx.invariants(o.sort.cls).items():
@@ -2007,6 +2018,11 @@ class Task:
                         pass
                 else:
                     r = VNONE
+                if c.returns_fresh and isinstance(r, V) and isinstance(r.sort, RefSort):
+                    s.assume(r.z != null)
+                    s.new_object(r.z)
+                    s.assume(z3.Not(z3.Select(s.alloc, r.z)))
+                    s.alloc = z3.Store(s.alloc, r.z, z3.BoolVal(True))
                 e2["result"] = r
                 clauses = dict(c.ensures)
                 clauses.update(c.ensures_for.get(self_cls, {}))
@@ -2485,10 +2501,20 @@ class SpecEval:
             k = z3.Const(fresh_name("wfk"), m.sort.key.comps()[0])
             i, j = z3.Int(fresh_name("wfi")), z3.Int(fresh_name("wfj"))
             klen, karr = keys.comps[0], keys.comps[1]
+            def has_ite(t):
+                return z3.is_app(t) and (t.decl().kind() == z3.Z3_OP_ITE or any(has_ite(c) for c in t.children()))
+
+            def fa(vs, body, pat):
+                if has_ite(pat):
+                    return z3.ForAll(vs, body)
+                try:
+                    return z3.ForAll(vs, body, patterns=[pat])
+                except z3.Z3Exception:      # the pattern simplified away (e.g. a constant array): let z3 choose
+                    return z3.ForAll(vs, body)
             return vbool(z3.And(klen >= 0,
                                 z3.ForAll([i, j], z3.Implies(z3.And(0 <= i, i < j, j < klen), z3.Select(karr, i) != z3.Select(karr, j))),
-                                z3.ForAll([i], z3.Implies(z3.And(0 <= i, i < klen), z3.Select(dom, z3.Select(karr, i))), patterns=[z3.Select(karr, i)]),
-                                z3.ForAll([k], z3.Implies(z3.Select(dom, k), z3.Exists([i], z3.And(0 <= i, i < klen, z3.Select(karr, i) == k))), patterns=[z3.Select(dom, k)])))
+                                fa([i], z3.Implies(z3.And(0 <= i, i < klen), z3.Select(dom, z3.Select(karr, i))), z3.Select(karr, i)),
+                                fa([k], z3.Implies(z3.Select(dom, k), z3.Exists([i], z3.And(0 <= i, i < klen, z3.Select(karr, i) == k))), z3.Select(dom, k))))
         if name == "startswith":
             a, b = self.ev(n.args[0]), self.ev(n.args[1])
             return vbool(z3.PrefixOf(b.z, a.z))
